@@ -8,27 +8,30 @@ import (
 
 func TestVerifReplay(t *testing.T) {
 	verifsym.RunReplay(t, map[string]any{
-		"Verif_C15_Structure":        Verif_C15_Structure,
-		"Verif_C15_Structure3":       Verif_C15_Structure3,
-		"Verif_C15_Leaf":             Verif_C15_Leaf,
-		"Verif_C15_Chain":            Verif_C15_Chain,
-		"Verif_C12_TagsLong":         Verif_C12_TagsLong,
-		"Verif_C12_Tags":             Verif_C12_Tags,
-		"Verif_C12_TagsMarker":       Verif_C12_TagsMarker,
-		"Verif_C12_TagsUTF8":         Verif_C12_TagsUTF8,
-		"Verif_C12_CommentLines":     Verif_C12_CommentLines,
-		"Verif_C14_VisitedGuard":     Verif_C14_VisitedGuard,
-		"Verif_C14_ResultsOf":        Verif_C14_ResultsOf,
-		"Verif_C14_Literals":         Verif_C14_Literals,
-		"Verif_C13_Tables":           Verif_C13_Tables,
-		"Verif_C13_Imports":          Verif_C13_Imports,
-		"Verif_C13_ImportsChain":     Verif_C13_ImportsChain,
-		"Verif_C13_BigFile":          Verif_C13_BigFile,
-		"Verif_C13_TablesGeneric":    Verif_C13_TablesGeneric,
-		"Verif_C13_TablesMany":       Verif_C13_TablesMany,
-		"Verif_C12_Attribution":      Verif_C12_Attribution,
-		"Verif_C12_AttributionDecls": Verif_C12_AttributionDecls,
-		"Verif_C12_DocText":          Verif_C12_DocText,
-		"Verif_C12_LineWrap":         Verif_C12_LineWrap,
+		"Verif_C15_Structure":              Verif_C15_Structure,
+		"Verif_C15_Structure3":             Verif_C15_Structure3,
+		"Verif_C15_Leaf":                   Verif_C15_Leaf,
+		"Verif_C15_Chain":                  Verif_C15_Chain,
+		"Verif_C12_TagsLong":               Verif_C12_TagsLong,
+		"Verif_C12_Tags":                   Verif_C12_Tags,
+		"Verif_C12_TagsMarker":             Verif_C12_TagsMarker,
+		"Verif_C12_TagsUTF8":               Verif_C12_TagsUTF8,
+		"Verif_C12_CommentLines":           Verif_C12_CommentLines,
+		"Verif_C14_VisitedGuard":           Verif_C14_VisitedGuard,
+		"Verif_C14_ResultsOf":              Verif_C14_ResultsOf,
+		"Verif_C14_Literals":               Verif_C14_Literals,
+		"Verif_C13_Tables":                 Verif_C13_Tables,
+		"Verif_C13_Imports":                Verif_C13_Imports,
+		"Verif_C13_ImportsChain":           Verif_C13_ImportsChain,
+		"Verif_C13_BigFile":                Verif_C13_BigFile,
+		"Verif_C13_TablesGeneric":          Verif_C13_TablesGeneric,
+		"Verif_C13_TablesMany":             Verif_C13_TablesMany,
+		"Verif_C12_Attribution":            Verif_C12_Attribution,
+		"Verif_C12_AttributionDecls":       Verif_C12_AttributionDecls,
+		"Verif_C12_DocText":                Verif_C12_DocText,
+		"Verif_C12_LineWrap":               Verif_C12_LineWrap,
+		"Verif_C12_AttributionParsed":      Verif_C12_AttributionParsed,
+		"Verif_C12_AttributionDeclsParsed": Verif_C12_AttributionDeclsParsed,
+		"Verif_C12_DocTextParsed":          Verif_C12_DocTextParsed,
 	})
 }
